@@ -55,6 +55,9 @@ func (h *History) between() {
 
 func cloneValue(fd protoreflect.FieldDescriptor, v protoreflect.Value) protoreflect.Value {
 	if fd.Kind() == protoreflect.BytesKind {
+		if len(v.Bytes()) == 0 {
+			return protoreflect.ValueOfBytes(nil) // empty bytes handed over as a nil slice
+		}
 		return protoreflect.ValueOfBytes(append([]byte{}, v.Bytes()...))
 	}
 	return v
@@ -371,6 +374,10 @@ func (h *History) setScalar(f reflect.Value, fd protoreflect.FieldDescriptor, v 
 	case protoreflect.StringKind:
 		f.SetString(v.String())
 	case protoreflect.BytesKind:
+		if len(v.Bytes()) == 0 && h.T.Chance("nil-empty-bytes", 1, 2) {
+			f.SetBytes(nil) // an empty value may be a nil or an empty slice
+			return
+		}
 		f.SetBytes(append([]byte{}, v.Bytes()...))
 	}
 }
